@@ -21,6 +21,8 @@ ListsN == {List(s) : s \in SeqsOver(NumD, NL)}
 ListsM == {List(s) : s \in SeqsOver(MixD, ML)}
 ListsP == {List(s) : s \in SeqsOver(PairD, 3)}
 ListsS == {List(s) : s \in SeqsOver(StrD, 2)}
+\* every order in which three keys can come back after one another (a b a a, a b c b b, ...)
+ListsG == {List(s) : s \in UNION {[1..k -> {Fin(1), Str(A), List(<<Fin(1)>>)}] : k \in 4..5}}
 Small  == {List(s) : s \in SeqsOver(MixD, 1)}
 Strs   == {Str(s) : s \in SeqsOver(CharD, ML)}
 Delims == {Str(<<12>>), Str(<<12, 13>>), Str(<<>>), Str(<<19>>), Str(<<16>>)}
@@ -54,6 +56,7 @@ Cases ==
   \cup {CK("sort_by", l, "len") : l \in ListsS \cup ListsM}
   \cup {CK(f, l, "type") : f \in {"group_by", "count_by"}, l \in ListsM \cup ListsN}
   \cup {CK(f, l, "id") : f \in {"group_by", "count_by"}, l \in ListsS \cup Small}
+  \cup {CK(f, l, "type") : f \in {"group_by", "count_by"}, l \in ListsG}
   \cup {C2(f, l, s) : f \in {"concat", "spread2", "zip"}, l \in ListsM, s \in Small}
   \cup {C2(f, s, l) : f \in {"concat", "spread2", "zip"}, l \in ListsM, s \in Small}
   \cup {C2("spread2", s, r) : s \in Strs, r \in Recs}
